@@ -317,49 +317,86 @@ func genWDiff(r *Rng, id int, tier string) *Sx {
 	kind := "edit"
 	n := r.Range(1, 3)
 	for i := 0; i < n; i++ {
-		switch r.Intn(6) {
-		case 0: // drop an object
-			if len(b.Objs) > 1 {
-				j := r.Intn(len(b.Objs))
-				b.Objs = append(b.Objs[:j], b.Objs[j+1:]...)
-			}
-		case 1: // add a workload
-			ns := "ns0"
-			for _, o := range b.Objs {
-				if o.Kind == "wl" {
-					ns = o.Wl.NS
-				}
-			}
-			b.Objs = append(b.Objs, Obj{Kind: "wl", Wl: &Workload{Kind: Pick(r, wlKinds), NS: ns, Name: fmt.Sprintf("n%d", r.Intn(3)), Labels: genLabels(r, lblKeys, lblVals, 2), Ports: genCPorts(r)}})
-		case 2, 3: // add a policy
-			ns := "ns0"
-			for _, o := range b.Objs {
-				if o.Kind == "wl" && r.P(50) {
-					ns = o.Wl.NS
-				}
-			}
-			b.Objs = append(b.Objs, Obj{Kind: "np", Np: genNetPol(r, cfg, ns, fmt.Sprintf("e%d", i))})
-		case 4: // regenerate a policy
-			for j, o := range b.Objs {
-				if o.Kind == "np" && r.P(50) {
-					b.Objs[j] = Obj{Kind: "np", Np: genNetPol(r, cfg, o.Np.NS, o.Np.Name)}
-					break
-				}
-			}
-		default: // change the kind of a workload (new + lost workload)
-			for _, o := range b.Objs {
-				if o.Kind == "wl" && r.P(50) {
-					o.Wl.Kind = Pick(r, wlKinds)
-					break
-				}
-			}
-		}
+		editForDiff(r, cfg, b, i)
 	}
 	if r.P(8) {
 		b = cloneWorld(a)
 		kind = "same"
 	}
 	return Ls(At("wdiff"), Ai(int64(id)), At(kind), a.Sx(), b.Sx())
+}
+
+
+// editForDiff applies one random edit to b (the second version of a world)
+func editForDiff(r *Rng, cfg *genCfg, b *World, i int) {
+	switch r.Intn(8) {
+	case 0: // drop an object
+		if len(b.Objs) > 1 {
+			j := r.Intn(len(b.Objs))
+			b.Objs = append(b.Objs[:j], b.Objs[j+1:]...)
+		}
+	case 1: // add a workload
+		ns := "ns0"
+		for _, o := range b.Objs {
+			if o.Kind == "wl" {
+				ns = o.Wl.NS
+			}
+		}
+		b.Objs = append(b.Objs, Obj{Kind: "wl", Wl: &Workload{Kind: Pick(r, wlKinds), NS: ns, Name: fmt.Sprintf("n%d", r.Intn(3)), Labels: genLabels(r, lblKeys, lblVals, 2), Ports: genCPorts(r)}})
+	case 2, 3: // add a policy
+		ns := "ns0"
+		for _, o := range b.Objs {
+			if o.Kind == "wl" && r.P(50) {
+				ns = o.Wl.NS
+			}
+		}
+		b.Objs = append(b.Objs, Obj{Kind: "np", Np: genNetPol(r, cfg, ns, fmt.Sprintf("e%d", i))})
+	case 4: // regenerate a policy
+		for j, o := range b.Objs {
+			if o.Kind == "np" && r.P(50) {
+				b.Objs[j] = Obj{Kind: "np", Np: genNetPol(r, cfg, o.Np.NS, o.Np.Name)}
+				break
+			}
+		}
+	default: // change the kind of a workload (new + lost workload)
+		for _, o := range b.Objs {
+			if o.Kind == "wl" && r.P(50) {
+				o.Wl.Kind = Pick(r, wlKinds)
+				break
+			}
+		}
+	case 6: // move an ipBlock to another CIDR, ports unchanged (the ip-ranges of the two reports differ, the connections do not)
+		for _, o := range b.Objs {
+			if o.Kind != "np" {
+				continue
+			}
+			for _, rules := range [][]NPRule{o.Np.Ingress, o.Np.Egress} {
+				for ri := range rules {
+					for pi := range rules[ri].Peers {
+						if rules[ri].Peers[pi].IsIP && r.P(60) {
+							rules[ri].Peers[pi].CIDR = Pick(r, []string{"10.0.0.0/8", "10.1.0.0/16", "10.1.2.0/24", "172.16.0.0/12", "192.168.0.0/16", "0.0.0.0/1"})
+							rules[ri].Peers[pi].Except = nil
+							return
+						}
+					}
+				}
+			}
+		}
+	case 7: // another port in one rule
+		for _, o := range b.Objs {
+			if o.Kind != "np" {
+				continue
+			}
+			for _, rules := range [][]NPRule{o.Np.Ingress, o.Np.Egress} {
+				for ri := range rules {
+					if len(rules[ri].Ports) > 0 && r.P(50) {
+						rules[ri].Ports[0] = NPPort{Proto: rules[ri].Ports[0].Proto, Kind: "num", Num: Pick(r, portPool)}
+						return
+					}
+				}
+			}
+		}
+	}
 }
 
 var _ = connlist.ValidFormats
